@@ -79,9 +79,61 @@ func gen(rng *rand.Rand, search bool) Input {
 		objs = replaceObj(objs, svc)
 		objs = replaceObj(objs, ep)
 	}
+	objs = addPods(rng, objs)
 	in.Objects = world.EncodeObjs(objs)
 	in.Requests = genRequests(rng, objs)
 	return in
+}
+
+// addPods adds, for about half of the services that have Endpoints, pods whose
+// PodIP + container port equal (a) a READY address of the service's Endpoints (the window
+// before the endpoints controller drops a terminating pod), (b) a not-ready address, (c) no
+// address at all; terminating or not; selected by the service or by ANOTHER service of the
+// namespace. Container ports are named "web" with the endpoint's port number, so that both
+// numeric targetPorts and the named targetPort "web" (svc3) resolve (FindContainerPort).
+func addPods(rng *rand.Rand, objs []client.Object) []client.Object {
+	eps := map[string]*api.Endpoints{}
+	for _, o := range objs {
+		if e, ok := o.(*api.Endpoints); ok {
+			eps[e.Namespace+"/"+e.Name] = e
+		}
+	}
+	n := 0
+	for _, o := range objs {
+		svc, ok := o.(*api.Service)
+		if !ok || rng.Intn(2) == 0 {
+			continue
+		}
+		e := eps[svc.Namespace+"/"+svc.Name]
+		if e == nil {
+			continue
+		}
+		for _, ss := range e.Subsets {
+			if len(ss.Ports) == 0 {
+				continue
+			}
+			port := int(ss.Ports[0].Port)
+			var cands []string
+			for _, a := range ss.Addresses {
+				cands = append(cands, a.IP)
+			}
+			for _, a := range ss.NotReadyAddresses {
+				cands = append(cands, a.IP)
+			}
+			cands = append(cands, fmt.Sprintf("10.200.%d.%d", n/200, n%200+1))
+			for k, m := 0, 1+rng.Intn(2); k < m; k++ {
+				n++
+				ipaddr := cands[rng.Intn(len(cands))]
+				app := svc.Name
+				if rng.Intn(5) == 0 {
+					app = world.ServiceNames[rng.Intn(len(world.ServiceNames))] // maybe another service's pod
+				}
+				pod := world.Pod(svc.Namespace, fmt.Sprintf("%s-t%d", svc.Name, n), app, ipaddr, port, rng.Intn(4) > 0)
+				objs = append(objs, pod)
+			}
+		}
+	}
+	return objs
 }
 
 func replaceObj(objs []client.Object, o client.Object) []client.Object {
@@ -419,6 +471,22 @@ func corpus() []Input {
 		world.Endpoints("ns1", "svc2", world.EpPort{Name: "http", Port: 8080, Ready: []string{"10.0.0.2"}, NotReady: []string{"10.0.0.4"}}),
 		world.Pod("ns1", "svc2-pod1", "svc2", "10.0.0.9", 8080, true),
 		ing1, ing2))
+	// drain-support: a terminating pod that the Endpoints object still lists as ready must be drained;
+	// numeric and named targetPort; a terminating pod of another service and a running pod change nothing
+	out = append(out, mk("terminating pods still listed as ready addresses (drain-support on)", "", true,
+		[]Req{{false, "a.example", "/"}, {false, "a.example", "/n"}},
+		world.Service("ns1", "svc1", world.SvcPort{Name: "http", Port: 80, TargetPort: intstr.FromInt(8080)}),
+		world.Endpoints("ns1", "svc1", world.EpPort{Name: "http", Port: 8080, Ready: []string{"10.0.0.1", "10.0.0.2", "10.0.0.5"}, NotReady: []string{"10.0.0.3"}}),
+		world.Service("ns1", "svc3", world.SvcPort{Name: "", Port: 80, TargetPort: intstr.FromString("web")}),
+		world.Endpoints("ns1", "svc3", world.EpPort{Name: "", Port: 8002, Ready: []string{"10.0.1.1", "10.0.1.2"}}),
+		world.Pod("ns1", "svc1-t1", "svc1", "10.0.0.2", 8080, true),
+		world.Pod("ns1", "svc1-t2", "svc1", "10.0.0.3", 8080, true),
+		world.Pod("ns1", "svc1-t3", "svc1", "10.0.0.9", 8080, true),
+		world.Pod("ns1", "svc1-r1", "svc1", "10.0.0.1", 8080, false),
+		world.Pod("ns1", "svc2-t1", "svc2", "10.0.0.5", 8080, true),
+		world.Pod("ns1", "svc3-t1", "svc3", "10.0.1.2", 8002, true),
+		world.Ingress("ns1", "ing1", 10, world.IngRule{Host: "a.example", Paths: []world.IngPath{
+			{Path: "/", Type: "Prefix", Service: "svc1", PortNum: 80}, {Path: "/n", Type: "Prefix", Service: "svc3", PortNum: 80}}})))
 	// --default-backend-service whose service is otherwise only used by a TLS host, ssl-redirect on
 	tlsIng := world.Ingress("ns1", "ing1", 10, world.IngRule{Host: "t.example", Paths: []world.IngPath{{Path: "/", Type: "Prefix", Service: "svc1", PortNum: 80}}})
 	tlsIng.Spec.TLS = []networking.IngressTLS{{Hosts: []string{"t.example"}}}
